@@ -5,7 +5,7 @@ namespace GF
 
 /-- the first `n` coefficients of `e` -/
 def tab (n : Nat) : G → List Rat
-  | .fn f => (List.range n).map f
+  | .fn f _ => (List.range n).map f
   | .sum a b => List.zipWith (· + ·) (tab n a) (tab n b)
   | .prod a b =>
     let A := tab n a
@@ -14,7 +14,7 @@ def tab (n : Nat) : G → List Rat
 
 /-- `eval` with a running power instead of recomputing `pow x i` for every term -/
 def evalF : G → Rat → Rat
-  | .fn f, x => ((List.range 301).foldl (fun (s : Rat × Rat) i => (s.1 + f i * s.2, s.2 * x)) (0, 1)).1
+  | .fn f n, x => ((List.range (n + 1)).foldl (fun (s : Rat × Rat) i => (s.1 + f i * s.2, s.2 * x)) (0, 1)).1
   | .sum a b, x => evalF a x + evalF b x
   | .prod a b, x => evalF a x * evalF b x
 
